@@ -90,6 +90,29 @@ const NOISE: &[&str] = &[
     " ", "\n  ", " t", " tail", "\tx ", "t ", " 42", "<![CDATA[ c]]>", "<![CDATA[]]>", "<!-- c -->", "<?pi d?>", " &amp; ", "&#32;", "&#x20;t",
 ];
 
+const XSI: &str = "http://www.w3.org/2001/XMLSchema-instance";
+
+/// `<r xmlns:xsi=XSI ...>` items `</r>`; item kind 0 = skipped unknown element, 1 = optional field
+pub fn nil_template(items: &[(u8, u16, u16, u16)], rootsel: u16) -> String {
+    let root_decl = [format!(" xmlns:xsi=\"{}\"", XSI), format!(" xmlns:xsi=\"{}\" xmlns:n=\"{}\"", XSI, XSI), String::new(), format!(" xmlns:n=\"{}\"", XSI)];
+    let mut s = format!("<r{}>", root_decl[scale(rootsel, root_decl.len())]);
+    let decls = ["", " xmlns:xsi=\"urn:x\"", " xmlns:xsi=\"\"", " xmlns:n=\"urn:y\"", " xmlns:xsi=\"urn:x\" xmlns:n=\"urn:y\"", " xmlns=\"urn:d\""];
+    let inners = ["", "t", "<zz/>", "<zz>t</zz>", "<zz><zz>x</zz></zz>", "<zz a=\"1\"/><zz b=\"2\"/>", "t<zz>u</zz>", "<e><e>x</e></e>", "<b/><c/>", "<zz xmlns:xsi=\"urn:z\"><zz/></zz>", "<![CDATA[c]]><zz/>"];
+    let nils = ["", " xsi:nil=\"true\"", " n:nil=\"true\"", " xsi:nil=\"false\"", " xsi:nil=\"1\"", " nil=\"true\""];
+    let contents = ["2", "t", "", "<v>x</v>", "<Unit/>"];
+    let names = ["a", "b", "c", "d"];
+    for (kind, x, y, z) in items {
+        if *kind == 0 {
+            s.push_str(&format!("<zz{}>{}</zz>", decls[scale(*x, decls.len())], inners[scale(*y, inners.len())]));
+        } else {
+            let n = names[scale(*x, names.len())];
+            s.push_str(&format!("<{}{}>{}</{}>", n, nils[scale(*y, nils.len())], contents[scale(*z, contents.len())], n));
+        }
+    }
+    s.push_str("</r>");
+    s
+}
+
 fn cuts_strategy() -> impl Strategy<Value = (u8, Vec<u16>)> {
     (0u8..8, prop::collection::vec(any::<u16>(), 0..8))
 }
@@ -179,6 +202,18 @@ fn run(ctx: &Ctx) {
         }))
     };
     ctx.run_proptest_with("extra-targets", ctx.tier.pick(600_000, 6_000_000), extra, check_extra);
+    // namespace-sensitive templates: skipped (unknown) elements that nest same-named elements and
+    // (re)bind or unbind the prefixes used for xsi:nil, interleaved with optional fields carrying
+    // prefix:nil attributes — xsi:nil is resolved through the namespace scope, which the two event
+    // readers maintain separately while skipping
+    let nil = || {
+        Box::new((prop::collection::vec((0u8..2, any::<u16>(), any::<u16>(), any::<u16>()), 1..6), prop::sample::select(vec![super::c07::Target::OptHolder, super::c07::Target::NestedOpts, super::c07::Target::ValueOptInner, super::c07::Target::HashMapStr, super::c07::Target::Ignored]), any::<u16>(), cuts_strategy()).prop_map(|(items, target, rootsel, (sel, rnd))| {
+            let doc = nil_template(&items, rootsel);
+            let cuts = make_cuts(doc.len(), sel, &rnd);
+            ExtraCase { target, input: doc, cuts }
+        }))
+    };
+    ctx.run_proptest_with("nil-and-skip-templates", ctx.tier.pick(600_000, 5_000_000), nil, check_extra);
     let soup = || {
         Box::new((prop::collection::vec(any::<u16>(), 0..14), prop::sample::select(ALL_TYPES.to_vec()), cuts_strategy()).prop_map(|(ws, ty, (sel, rnd))| {
             let input = ws.iter().map(|w| VOCAB[scale(*w, VOCAB.len())]).collect::<Vec<_>>().concat();
